@@ -10,11 +10,10 @@ PROP = dict(
                "sequence of charges. Unbounded in all u64/i64 arguments.",
     level_note="Trusted: Verus/z3; u64::overflowing_sub's assumed contract; erase_cost/record_refund preconditions "
                "(returned gas was charged before; refund counter does not overflow i64) are call-site facts checked in the "
-               "units that call them, not here; set_final_refund assumes the refund counter is non-negative at the end of "
-               "a transaction (EIP-3529 protocol invariant).",
+               "units that call them, not here; set_final_refund: exact value for a non-negative counter; for any counter the result is in 0..=cap.",
     trusted=COMMON_TRUST,
     assumptions=[
-        "set_final_refund / spent_sub_refunded: refund counter >= 0 at transaction end (protocol invariant, not proved here)",
+        "spent_sub_refunded: refund counter >= 0 at transaction end (protocol invariant, not proved here); set_final_refund has NO sign precondition: its result is proved to lie in 0..=cap for every counter",
         "erase_cost: remaining + returned <= limit (proved at call sites in units that call it; trusted where the call site is outside a unit)",
         "record_refund: no i64 overflow of the refund counter",
         "machine arithmetic is NOT treated as mathematical: every + - on u64/i64 is an overflow obligation",
